@@ -45,6 +45,7 @@ func (t *TaskExecutor[T]) ExecuteAt(identifier T, callback func(), executionTime
 	scheduledTask = t.Executor.ExecuteAt(func() {
 		// A task is pending until it starts: remove our own entry (and only our own) before running the callback.
 		// If the entry is gone or belongs to a newer task, this task was canceled or replaced in the meantime.
+		verifYield("task:polled", t, identifier)
 		t.queuedElementsMutex.Lock()
 		if queuedElement, queuedElementExists := t.queuedElements.Get(identifier); !queuedElementExists || queuedElement != scheduledTask {
 			t.queuedElementsMutex.Unlock()
@@ -54,6 +55,7 @@ func (t *TaskExecutor[T]) ExecuteAt(identifier T, callback func(), executionTime
 		t.queuedElements.Delete(identifier)
 		t.queuedElementsMutex.Unlock()
 
+		verifYield("task:checked", t, identifier)
 		callback()
 	}, executionTime)
 
